@@ -265,7 +265,7 @@ def gen_call(ctx: WorkCtx, allow_uploads=True):
     ch = ctx.ch
     ctx.allow_uploads = allow_uploads
     via = ch.weighted("w.via", [("execute", 6), ("get_item", 1), ("list_items", 1), ("ping", 1),
-                                ("create_item", 2), ("do_upload", 2 if allow_uploads else 0)])
+                                ("create_item", 2), ("do_upload", 2 if allow_uploads else 0), ("search_now", 1)])
     before = ctx.n_upload_refs
     spec: Dict[str, Any] = {"via": via}
     if via == "execute":
@@ -290,6 +290,11 @@ def gen_call(ctx: WorkCtx, allow_uploads=True):
                         "color": ch.pick("w.colarg", [("unset",), ("none",), ("enum", "GREEN")])}
     elif via == "ping":
         spec["args"] = {}
+    elif via == "search_now":
+        # GraphQL variables named like the generated method's own locals
+        spec["args"] = {"query": ("str", ch.pick("w.sq", ["whale", "", "{ ping }"])),
+                        "variables": ch.pick("w.sv", [("unset",), ("none",), ("int", 3)]),
+                        "data": ch.pick("w.sd", [("unset",), ("str", "payload"), ("none",)])}
     elif via == "create_item":
         spec["args"] = {"input": gen_model(ctx, 2)}
     else:
@@ -354,7 +359,7 @@ def instantiate(node, N: Names, uploads_spec, upload_objs: Dict[int, Any]):
 
 
 GEN_OPS = {"get_item": "GetItem", "list_items": "ListItems", "ping": "Ping", "create_item": "CreateItem",
-           "do_upload": "DoUpload"}
+           "do_upload": "DoUpload", "search_now": "SearchNow"}
 _QUERY_CACHE: Dict[str, str] = {}
 
 
